@@ -52,7 +52,7 @@ def main():
     finally:
         sh("git -C /repo checkout -- . ")
         # remove replays created by the mutant run
-        sh("rm -rf /tmp/mut-replays")
+        sh("rm -rf /tmp/mut-replays-last; mv /tmp/mut-replays /tmp/mut-replays-last 2>/dev/null")
     return 0
 
 sys.exit(main())
